@@ -1,5 +1,7 @@
 import ElaVerif.Lemmas.P2PFrame
 import ElaVerif.Gen.C35
+import ElaVerif.Model.P2PMsg
+import ElaVerif.Lemmas.Bloom
 /-!
 # C35 — P2P framing rejects anything but well-formed, authentic messages
 
@@ -275,6 +277,73 @@ theorem C35_write_read_unguarded_false :
     decide
   have e := key.symm.trans hres
   cases e
+
+/-- the frame a successful `writeMessage` produces is 24 header bytes followed by the payload -/
+theorem writeMessage_length (H : Bytes → Bytes) (magic max : Nat) (cmd payload frame : Bytes)
+    (hH : ∀ b, 4 ≤ (H b).length) (hw : writeMessage H magic cmd max payload = .ok frame) :
+    frame.length = 24 + payload.length := by
+  unfold writeMessage at hw
+  split at hw
+  · cases hw
+  · split at hw
+    · cases hw
+    · by_cases hc : cmd.length ≤ cmdSize
+      · simp only [buildHeader, if_pos hc] at hw
+        cases hw
+        have := hH payload
+        simp only [Header.serialize, List.length_append, le32_length, List.length_replicate, List.length_take, cmdSize] at hc ⊢
+        omega
+      · simp only [buildHeader, if_neg hc] at hw
+        cases hw
+
+/-- what the reader is expected to return for a list of written messages -/
+def expected (decode : Bytes → Bytes → Option α) (msgs : List (Bytes × Nat × Bytes)) : List (Bytes × α) :=
+  msgs.filterMap fun x => (decode x.1 x.2.2).map fun m => (x.1, m)
+
+/-- **Sessions**: any sequence of messages written one after the other on a connection is read
+    back, in order, as exactly those messages — the reader consumes each frame completely and
+    nothing of the next one, so framing never loses synchronisation on well-formed traffic. -/
+theorem C35_stream (H : Bytes → Bytes) (table : List (Bytes × Nat)) (decode : Bytes → Bytes → Option α)
+    (magic : Nat) (hH : ∀ b, 4 ≤ (H b).length) (hmagic : magic < 2 ^ 32) :
+    ∀ (msgs : List (Bytes × Nat × Bytes)) (wire : Bytes),
+      (∀ x ∈ msgs, CmdOK x.1 ∧ lookup table x.1 = some x.2.1 ∧ (decode x.1 x.2.2).isSome) →
+      writeStream H magic msgs = some wire →
+      readStream H table decode magic msgs.length wire = (expected decode msgs, none) ∧
+        (expected decode msgs).length = msgs.length := by
+  intro msgs
+  induction msgs with
+  | nil =>
+    intro wire _ _
+    exact ⟨rfl, rfl⟩
+  | cons x rest ih =>
+    intro wire hok hw
+    obtain ⟨cmd, max, payload⟩ := x
+    have hx := hok (cmd, max, payload) (by simp)
+    obtain ⟨m, hdec⟩ := Option.isSome_iff_exists.mp hx.2.2
+    unfold writeStream at hw
+    split at hw
+    · rename_i f fs hf hfs
+      cases hw
+      have hread := C35_write_read H table decode magic max cmd payload fs f m hH hmagic hx.1 hx.2.1 hdec hf
+      have hlen := writeMessage_length H magic max cmd payload f hH hf
+      have hne : (f ++ fs).isEmpty = false := by
+        cases f with
+        | nil => simp at hlen; omega
+        | cons _ _ => rfl
+      have hdrop : (f ++ fs).drop (24 + payload.length) = fs := drop_app hlen
+      obtain ⟨ih1, ih2⟩ := ih fs (fun z hz => hok z (by simp [hz])) hfs
+      constructor
+      · simp only [List.length_cons, readStream, hne, hread]
+        rw [hdrop, ih1]
+        simp [expected, hdec]
+      · simp only [expected, List.filterMap_cons, hdec, Option.map_some, List.length_cons]
+        simp only [expected] at ih2
+        rw [ih2]
+    · cases hw
+
+example : (readStream (fun _ => [0, 0, 0, 0]) [([112, 105, 110, 103], 8)] (fun _ p => some p) 7 2
+    ((writeStream (fun _ => [0, 0, 0, 0]) 7 [([112, 105, 110, 103], 8, [1]), ([112, 105, 110, 103], 8, [2, 3])]).getD [])).1 =
+    [([112, 105, 110, 103], [1]), ([112, 105, 110, 103], [2, 3])] := by decide
 
 /-! ## corruption
 
@@ -589,6 +658,30 @@ theorem C35_gen_structure :
        "if-init err := hdr.Deserialize(headerBytes[:])", "if err != nil", "return nil, ErrInvalidHeader",
        "if hdr.Magic != magic", "return nil, ErrUnmatchedMagic", "return createMessage(hdr, r)"] := by
   decide
+
+/-- T-gen: the limits inside the modelled main-net decoders (`Model/P2PMsg.lean`, used by the driver
+    instead of an oracle value for 15 commands) are the ones the packages define. -/
+theorem C35_gen_codec_consts :
+    Gen.C35.crProposalVersion = P2PMsg.crProposalVersion ∧ Gen.C35.maxInvPerMsg = P2PMsg.maxInvPerMsg ∧
+    Gen.C35.maxBlockLocatorsPerMsg = P2PMsg.maxBlockLocatorsPerMsg ∧ Gen.C35.maxAddrPerMsg = P2PMsg.maxAddrPerMsg ∧
+    Gen.C35.maxFilterAddDataSize = P2PMsg.maxFilterAddDataSize ∧
+    Gen.C35.maxTxFilterLoadDataSize = P2PMsg.maxTxFilterLoadDataSize ∧
+    Gen.C35.maxVarStringLength = P2PMsg.maxVarStringLength := by
+  decide
+
+/-- The finding behind the `WriteMessage` fix, as a theorem about the codec: `FilterLoad.Serialize`
+    accepts a 36000-byte filter (its own limit), and the bytes it produces are 36013 long — one more
+    than the `MaxLength` (36012, regenerated) the reader enforces for `filterload`.  No choice of
+    the optional tx-type list helps: the count byte alone is the excess. -/
+theorem C35_filterload_exceeds_max (bits : Bloom.Bytes) (hf tw : UInt32) (flags : UInt8)
+    (hlen : bits.length = Bloom.maxFilterLoadFilterSize) :
+    (Bloom.encodeFilterLoad ⟨bits, hf, tw, []⟩ flags).length = 36013 ∧
+    (Gen.C35.elanetServer.filter (fun e => e.caseCmd == "filterload")).map (·.max) = [36012] := by
+  constructor
+  · rw [Bloom.encodeFilterLoad_length, Bloom.writeVarUint_length, Bloom.writeVarUint_length]
+    simp only [hlen, Bloom.maxFilterLoadFilterSize, List.length_nil]
+    simp
+  · decide
 
 /-- the largest `MaxLength` of a table -/
 def tableMax : List (Bytes × Nat) → Nat
